@@ -147,6 +147,14 @@ wait:
 		binary.BigEndian.PutUint16(*r, orgId)
 		return r, nil
 	case <-dc.closeNotify:
+		// The reply may have been delivered right before the connection was closed.
+		select {
+		case r := <-respChan:
+			orgId := binary.BigEndian.Uint16(q)
+			binary.BigEndian.PutUint16(*r, orgId)
+			return r, nil
+		default:
+		}
 		return nil, dc.closeErr
 	}
 }
